@@ -351,7 +351,8 @@ def run_reduce(case, rec):
     except Exception as e:
         rec.exception('reduce', e, what=f'{name}({kw}) raised on {case["L"]}'); return
     dr = np.asarray(dense(res), dtype=float); r = np.asarray(ref, dtype=float)
-    good = dr.shape == r.shape and np.allclose(dr, r, rtol=1e-12, atol=0)
+    scale = float(np.abs(da.astype(float)).max()) if da.size else 0.0   # summation order differs: cancellation error is relative to the largest addend
+    good = dr.shape == r.shape and np.allclose(dr, r, rtol=1e-12, atol=1e-13 * scale * max(1, da.size))
     rec.check(good, 'reduce', f'{name}/axis={axis}/keepdims={keep}/{case["L"]["k"]}',
               f'{name}({kw}) = {dr.tolist()} (shape {dr.shape}) vs numpy {r.tolist()} (shape {r.shape})')
     e = invariant(a) or (invariant(res) if isinstance(res, SPARSE) else None)
